@@ -124,6 +124,7 @@ type bias struct {
 	pCond                int
 	pCancel              int
 	pOddURL int
+	pStall  int
 	pPoison              int
 	pPartial             int
 	pRespell             int
@@ -293,6 +294,16 @@ func (g *gen) plan(b *bias, resIdx, nRes int, vary string) RespPlan {
 		p.FaultAt = g.IntN(max(p.BodyLen, 1))
 		if g.chance(15) {
 			p.FaultAt = -(1 + g.IntN(99))
+		}
+	}
+	if p.Status >= 500 && p.Fault == "" && g.chance(b.pStall) {
+		// an error reply whose body never ends: nothing in it is needed to answer the caller
+		p.Fault, p.FaultAt, p.CC, p.ExpMode, p.CCStyle = "stall", g.IntN(max(p.BodyLen, 1)), "no-store", "", ""
+		if p.BodyLen == 0 {
+			p.BodyLen = 40
+		}
+		if p.Framing == "h2nolen" || p.Framing == "close" || p.Framing == "h10close" {
+			p.Framing = ""
 		}
 	}
 	if g.chance(b.pHop) {
@@ -734,6 +745,19 @@ var profiles = map[string]func(b *bias, g *gen){
 		b.freshKinds = []int{8, 2, 0, 0}
 		b.backends = []string{"mem", "mem", "fs"}
 	},
+	"wbfault": func(b *bias, g *gen) {
+		// C08: one client, several variants, validations - and exactly one transient read error of the store
+		// somewhere: whichever read it hits, no variant that is stored may be lost for it
+		b.pMultiField = 20
+		b.lifetimes = []int64{1, 2, 5, 300}
+		b.pValidator, b.pChange, b.pSWR, b.pVary, b.pVaryFlip, b.pNo304, b.pSelHdr = 95, 35, 0, 100, 0, 15, 90
+		b.pNoCache, b.pNoStore, b.pReqCC, b.pMustReval, b.pCancel, b.pUnsafe, b.pOtherMeth = 3, 0, 15, 5, 0, 0, 0
+		b.reqCCs = []string{"no-cache", "max-age=0"}
+		b.resources, b.clients, b.ops = [2]int{1, 1}, [2]int{1, 1}, [2]int{6, 16}
+		b.freshKinds = []int{9, 1, 0, 0}
+		b.backends = []string{"mem", "mem", "fs"}
+		b.pNetFault, b.pErrStatus = 0, 0
+	},
 	"hits": func(b *bias, g *gen) {
 		b.pLongURL, b.pMultiLine = 20, 20
 		b.statuses = []int{200, 200, 203, 301, 308, 404, 405, 410, 414, 501}
@@ -747,7 +771,7 @@ var profiles = map[string]func(b *bias, g *gen){
 	},
 	"faults": func(b *bias, g *gen) {
 		b.faultFree, b.storeFaults, b.diskFaults = false, 3, 2
-		b.pNetFault, b.pErrStatus, b.pCancel, b.pOddURL = 25, 15, 6, 4
+		b.pNetFault, b.pErrStatus, b.pCancel, b.pOddURL, b.pStall = 25, 15, 6, 4, 25
 		b.ops = [2]int{2, 8}
 		b.pSWR, b.pSIE, b.pValidator = 30, 20, 85
 		b.lifetimes = []int64{0, 1, 2, 5, 60}
@@ -869,7 +893,7 @@ var profiles = map[string]func(b *bias, g *gen){
 		b.pStoreLat = 0
 	},
 	"sie": func(b *bias, g *gen) {
-		b.pSIE, b.pErrStatus, b.pNetFault, b.pValidator = 60, 35, 20, 90
+		b.pSIE, b.pErrStatus, b.pNetFault, b.pValidator, b.pStall = 60, 35, 20, 90, 25
 		b.lifetimes = []int64{1, 2, 5}
 		b.freshKinds = []int{9, 1, 0, 0}
 		b.reqCCs = []string{"stale-if-error=5", "stale-if-error=60", "max-stale=1", "no-cache"}
@@ -909,6 +933,10 @@ func Gen(profile string, seed uint64, thorough bool) *Scenario {
 				}
 			}
 		}
+	}
+	if profile == "wbfault" {
+		scn.StoreFaults = []StoreFault{{OpKind: "get", Nth: g.IntN(40), Kind: pick(g, "err", "timeout")}}
+		scn.DiskFaults, scn.Clients2 = nil, nil
 	}
 	if profile == "swrflood" {
 		for i := range scn.Resources {
